@@ -176,3 +176,18 @@ pub fn quiescent_check(db: &dyn crate::Database) -> (Vec<String>, Vec<DatabaseKe
     }
     (problems, stale)
 }
+
+/// Numeric form of an ingredient index (for logs).
+pub fn ingredient_index_u32(index: crate::IngredientIndex) -> u32 {
+    index.as_u32()
+}
+
+/// Numeric form of a revision (for logs).
+pub fn revision_number(revision: crate::Revision) -> usize {
+    revision.as_usize()
+}
+
+/// The current revision of `db` as a number.
+pub fn current_revision_number(db: &dyn crate::Database) -> usize {
+    db.zalsa().current_revision().as_usize()
+}
